@@ -13,7 +13,7 @@ DESCRIPTION = {
              "message has enc_algo='cryptobox', a payload and no args/kwargs, and the serialized bytes do not contain the marker; tampered / wrong key / URI mismatch => the "
              "application handler is never invoked, events are dropped, invocations are answered with an encryption ERROR and calls fail with an ApplicationError whose URI is in "
              "the wamp.error.encryption.* / no_payload_codec set - never a silent success, never altered data.  Events are delivered to 1-3 handlers attached to the same subscription: all get the genuine payload, none any forged, swapped or superseded one.  Enumerated job: values the transport can carry but the payload codec cannot (set, frozenset, datetime, UUID, nested) in all directions incl. progressive results - the operation may fail, the clear payload never goes out.  Registrations are also made relative to register(prefix=...).  Non-trivial = a tampered ciphertext or a per-prefix keyring; "
-             "distinct by (direction, layout, alteration). Layout 'tenants': per-prefix keys where several key pairs of one process face the same peer public key (another originator pair towards the same responder, another responder pair for the same originator), created before the pair under test."),
+             "distinct by (direction, layout, alteration). Layout 'tenants': per-prefix keys where several key pairs of one process face the same peer public key (another originator pair towards the same responder, another responder pair for the same originator), created before the pair under test. In the error direction the endpoint raises an application URI, a standard wamp.error.* URI or a plain Python exception (generic runtime-error URI): with a default key the ERROR payload is encrypted for each of them."),
     "assumptions": ["errors are asserted to be encrypted only for keyrings that hold a key for the error URI (default-key layouts); with per-prefix keys the library looks the key up by error URI (don't-care)"],
 }
 
@@ -61,7 +61,10 @@ def strategy():
                                   "direction": st.sampled_from(["publish", "call", "call-error"]), "args": vals, "kwargs": kws,
                                   "ser": st.sampled_from(["json", "cbor", "msgpack"]), "xor": st.integers(1, 255), "seed": st.integers(0, 1 << 20),
                                   "empty": st.sampled_from([False, False, False, True]),
-                                  "progress": st.booleans(), "prefix_reg": st.sampled_from([False, False, True]), "caller_defines": st.booleans(), "handlers": st.sampled_from([1, 1, 2, 3]), "prefix_kw": st.sampled_from([False, False, True])})     # calls ask for progressive results: encrypted progressive chunks reach on_progress exactly or not at all    # a request without any arguments (the result still carries the secret)
+                                  "progress": st.booleans(), "prefix_reg": st.sampled_from([False, False, True]), "caller_defines": st.booleans(),
+                                  # the error the endpoint raises: an application URI, a standard wamp.error.* URI, or a plain Python exception (generic runtime-error URI)
+                                  "err_uri": st.sampled_from(["com.myapp.error.e1", "com.myapp.error.e1", "wamp.error.invalid_argument", "plain"]),
+                                  "handlers": st.sampled_from([1, 1, 2, 3]), "prefix_kw": st.sampled_from([False, False, True])})     # calls ask for progressive results: encrypted progressive chunks reach on_progress exactly or not at all    # a request without any arguments (the result still carries the secret)
 
 
 def keyrings(layout):
@@ -257,6 +260,8 @@ def check_flow(c, n_xors=1):
             invoked = []
             fail_with = []
             callee_progress = []
+            ERR = c.get("err_uri") or "com.myapp.error.e1"
+            ERR_WIRE = "wamp.error.runtime_error" if ERR == "plain" else ERR
 
             def endpoint(*a, **k):
                 det = k.pop("details", None)
@@ -264,7 +269,9 @@ def check_flow(c, n_xors=1):
                     det.progress(MARK + "-prog", n=1)        # a progressive result of the callee: must be encrypted like the final one
                 invoked.append((a, k))
                 if fail_with:
-                    raise ApplicationError("com.myapp.error.e1", *args, **kwargs)
+                    if ERR == "plain":
+                        raise RuntimeError(*args)
+                    raise ApplicationError(ERR, *args, **kwargs)
                 return {"echo": [MARK, list(a)], "kw": {kk: vv for kk, vv in k.items()}}
             from autobahn.wamp.types import RegisterOptions
             for name, sid in (("com.myapp.proc1", 901), ("com.myapp.proc2", 902)):
@@ -418,7 +425,9 @@ def check_flow(c, n_xors=1):
                 if tr_call.n != 1 or not tr_call.ok or norm(tr_call.value) != expected:
                     raise Violation("C20|result|payload-not-recovered", "caller got %r, expected %r" % (brief(tr_call.value), brief(expected)), c)
             else:
-                if type(reply).__name__ != "Error" or reply.error != "com.myapp.error.e1":
+                if ERR == "plain":
+                    kwargs = {}       # a plain exception carries positional arguments only
+                if type(reply).__name__ != "Error" or reply.error != ERR_WIRE:
                     raise Violation("C20|error|not-the-application-error", "%s %r" % (type(reply).__name__, getattr(reply, "error", None)), c)
                 if layout in ("default", "halves"):
                     p.wire_checks(r, reply, "error")
@@ -446,10 +455,10 @@ def check_flow(c, n_xors=1):
                 if err is not None:
                     raise Violation("C20|error|onMessage-raised|" + exc_key(err), repr(err), c)
                 v = tr_call.value
-                if c.get("caller_defines"):
+                if c.get("caller_defines") and ERR_WIRE == "com.myapp.error.e1":
                     if tr_call.n != 1 or tr_call.ok or type(v) is not MappedError or norm(list(v.args)) != norm(args) or norm(v.kwargs) != norm(kwargs):
                         raise Violation("C20|error|payload-not-recovered", "caller (class registered for the URI) got %r args=%r kwargs=%r" % (v, getattr(v, "args", None), getattr(v, "kwargs", None)), c)
-                elif tr_call.n != 1 or tr_call.ok or not isinstance(v, ApplicationError) or v.error != "com.myapp.error.e1" or norm(list(v.args)) != norm(args) or norm(v.kwargs) != norm(kwargs):
+                elif tr_call.n != 1 or tr_call.ok or not isinstance(v, ApplicationError) or v.error != ERR_WIRE or norm(list(v.args)) != norm(args) or norm(v.kwargs) != norm(kwargs):
                     raise Violation("C20|error|payload-not-recovered", "caller got %r args=%r kwargs=%r" % (v, getattr(v, "args", None), getattr(v, "kwargs", None)), c)
         return stats
     finally:
